@@ -1277,6 +1277,14 @@ def cases_C18(tier, seed):
             for lead in trivia:
                 for cont in _C18_OTHER_CONT:
                     yield (lead, w, cs, cont)
+    # "everything after the leading keyword" may be long: a pretty-printed column list of more than 10 000 tokens (every
+    # blank of the indentation is a token) behind the keyword
+    tail = ' into t select\n        ' + ',\n        '.join('col_%04d' % i for i in range(1000)) + '\nfrom x'
+    yield ('', 'WITH', 'lower', ('cte', ' x AS (select 1) ', 'INSERT', tail))
+    yield ('-- c\n', 'SELECT', 'upper', '\n        ' + ',\n        '.join('col_%04d' % i for i in range(1000)) + '\nfrom x')
+    if tier != 'quick':
+        yield ('', 'WITH', 'upper', ('cte', ' x AS (select 1), y AS (select 2)\n', 'DELETE',
+                                     ' from t where a in (' + ', '.join(str(i) for i in range(4000)) + ')'))
 
 
 def classify_C18(case, failure):
